@@ -6,6 +6,7 @@ import (
 	"go/parser"
 	"go/token"
 	"math/big"
+	"regexp"
 	"sort"
 	"strings"
 
@@ -139,6 +140,13 @@ func c15Shapes(level int) []c15Shape {
 	fr("exmin=-0.5,max=100", J{"exclusiveMinimum": -0.5, "maximum": 100}, 0, 100)
 	fr("exmin=1.5,exmax=7.5", J{"exclusiveMinimum": 1.5, "exclusiveMaximum": 7.5}, 2, 7)
 	fr("exmin=-129.5,exmax=127.5", J{"exclusiveMinimum": -129.5, "exclusiveMaximum": 127.5}, -129, 127)
+	// a divisor that the chosen type cannot hold (only 0 is a multiple of it inside the bounds)
+	dv := func(name string, s J, lo, hi int64) {
+		s["type"] = "integer"
+		out = append(out, c15Shape{"divisor-beyond-type/" + name, s, big.NewInt(lo), big.NewInt(hi)})
+	}
+	dv("min=0,max=200,multipleOf=1000", J{"minimum": 0, "maximum": 200, "multipleOf": 1000}, 0, 200)
+	dv("min=-100,max=100,multipleOf=128", J{"minimum": -100, "maximum": 100, "multipleOf": 128}, -100, 100)
 	return out
 }
 
@@ -210,6 +218,11 @@ func c15(ctx *Ctx) {
 			}
 		},
 		OnBuildErr: func(sc *SCase, msg string) {
+			if strings.HasPrefix(sc.Axes["leaf"], "divisor-beyond-type/") && sc.Axes["sized"] == "true" && ctx.Run.Listed("SIZED_DIVISOR_NOT_REPRESENTABLE") &&
+				regexp.MustCompile(`\d+ \(untyped int constant\) overflows u?int\d+`).MatchString(msg) {
+				ctx.Run.Known("SIZED_DIVISOR_NOT_REPRESENTABLE", sc.ID+": "+firstLine(msg), map[string]any{"kind": "gen", "files": sc.Case().Files, "cfg": sc.Case().Cfg, "compiler": msg})
+				return
+			}
 			ctx.Run.Violation("compile:"+normCompileMsg(firstLine(msg)), fmt.Sprintf("%s: emitted code does not compile: %s", sc.ID, firstLine(msg)),
 				map[string]any{"kind": "gen", "files": sc.Case().Files, "cfg": sc.Case().Cfg, "compiler": msg})
 		},
